@@ -402,6 +402,29 @@ pub fn run(rep: &Report) {
     let thorough = rep.thorough();
     random_fn_plane(rep, if thorough { 3_000_000_000 } else { 4_000_000 });
     ins_plane(rep, if thorough { 5000 } else { 80 }, false, rep.seed ^ 0xD1);
+    // histories mix the multiply/divide family with flag-setting neighbours (incoming flags vary along the way);
+    // byte IMUL is left out (recorded known finding)
+    crate::insplane::history_plane(rep, if thorough { 40_000 } else { 600 }, 80, rep.seed ^ 0x43, false, "C03 lock-step history", "ins", &|rng| {
+        let bl: Vec<&str> = crate::c01::BLABELS.iter().map(|x| x.0).collect();
+        let wl: Vec<&str> = crate::c01::WLABELS.iter().map(|x| x.0).collect();
+        match rng.below(10) {
+            0 | 1 | 2 | 3 | 4 => {
+                let op = *rng.pick(&[Un::Mul, Un::Imul, Un::Div, Un::Idiv]);
+                let mut loc = crate::gen::un_form(rng.below(6), rng, &bl, &wl);
+                if op == Un::Imul && loc.width() == W::B {
+                    loc = Loc::R16(crate::gen::rand_r16(rng));
+                }
+                Ins::Un(op, loc)
+            }
+            5 => Ins::Simple(*rng.pick(&["aaa", "aas", "daa", "das", "aam", "aad", "cbw", "cwd"])),
+            6 => Ins::Simple(*rng.pick(&["stc", "clc", "cmc", "std", "cld"])),
+            7 => {
+                let (d, s) = crate::gen::alu2_form(rng.below(crate::gen::ALU2_FORMS), rng, &bl, &wl);
+                Ins::Alu2(*rng.pick(&[Alu2::Add, Alu2::Sub, Alu2::Xor, Alu2::Cmp]), d, s)
+            }
+            _ => Ins::Mov(Loc::R16(crate::gen::rand_r16(rng)), Src::Imm(rng.hostile16())),
+        }
+    });
     crate::insplane::edge_plane(rep, if thorough { 300_000 } else { 6000 }, rep.seed ^ 0xE3, false, "C03 at the end of memory", "ins", &|rng| {
         let bl: Vec<&str> = crate::c01::BLABELS.iter().map(|x| x.0).collect();
         let wl: Vec<&str> = crate::c01::WLABELS.iter().map(|x| x.0).collect();
